@@ -9,21 +9,183 @@ From MsmV Require Import Proofs.LabelsFacts Proofs.MsmFacts Proofs.StateTrajFact
 Import ListNotations.
 Local Open Scope nat_scope.
 
+(* ---------------- helpers: filter lengths ---------------- *)
+Lemma filter_length_le {A} (P : A -> bool) l : length (filter P l) <= length l.
+Proof.
+  induction l as [|x xs IH]; simpl; [lia|].
+  destruct (P x) eqn:EP; simpl; lia.
+Qed.
+
+Lemma filter_length_zero {A} (P : A -> bool) l :
+  length (filter P l) = 0 <-> (forall x, In x l -> P x = false).
+Proof.
+  induction l as [|x xs IH]; simpl.
+  - split; [intros _ y []|reflexivity].
+  - destruct (P x) eqn:EP; simpl.
+    + split; [discriminate|]. intros H. specialize (H x (or_introl eq_refl)). congruence.
+    + rewrite IH. split.
+      * intros H y [<-|Hy]; [exact EP|apply H; exact Hy].
+      * intros H y Hy. apply H. right; exact Hy.
+Qed.
+
+Lemma filter_length_full {A} (P : A -> bool) l :
+  length (filter P l) = length l <-> (forall x, In x l -> P x = true).
+Proof.
+  induction l as [|x xs IH]; simpl.
+  - split; [intros _ y []|reflexivity].
+  - destruct (P x) eqn:EP; simpl.
+    + split.
+      * intros H y [<-|Hy]; [exact EP|]. apply IH; [lia|exact Hy].
+      * intros H. f_equal. apply IH. intros y Hy. apply H. right; exact Hy.
+    + split.
+      * intros H. pose proof (filter_length_le P xs) as Hle. lia.
+      * intros H. specialize (H x (or_introl eq_refl)). congruence.
+Qed.
+
+(* ---------------- membership in usort ---------------- *)
+Lemma mem_Z_usort x l : mem_Z x (usort l) = mem_Z x l.
+Proof.
+  apply Bool.eq_iff_eq_true. rewrite !mem_Z_In. apply usort_In.
+Qed.
+
+Lemma disjoint_check s f :
+  Nat.eqb (length (filter (fun x => mem_Z x (usort f)) (usort s))) 0
+  = negb (existsb (fun x => mem_Z x f) s).
+Proof.
+  apply Bool.eq_iff_eq_true. rewrite Nat.eqb_eq, filter_length_zero, negb_true_iff.
+  split.
+  - intros H. destruct (existsb (fun x => mem_Z x f) s) eqn:EE; [|reflexivity].
+    apply existsb_exists in EE as [x [Hx Hm]].
+    rewrite <- mem_Z_usort in Hm. rewrite H in Hm; [discriminate|]. apply usort_In; exact Hx.
+  - intros H x Hx. rewrite mem_Z_usort. destruct (mem_Z x f) eqn:EM; [|reflexivity].
+    assert (HE : existsb (fun x => mem_Z x f) s = true).
+    { apply existsb_exists. exists x. split; [apply usort_In; exact Hx|exact EM]. }
+    congruence.
+Qed.
+
+Lemma subset_check s all :
+  Nat.eqb (length (filter (fun x => mem_Z x (usort all)) (usort s))) (length (usort s))
+  = forallb (fun x => mem_Z x all) s.
+Proof.
+  apply Bool.eq_iff_eq_true. rewrite Nat.eqb_eq, filter_length_full, forallb_forall.
+  split.
+  - intros H x Hx. rewrite <- mem_Z_usort. apply H. apply usort_In; exact Hx.
+  - intros H x Hx. rewrite mem_Z_usort. apply H. apply usort_In; exact Hx.
+Qed.
+
+Lemma validate_spec ts start final :
+  validate (usort (concat ts)) start final
+  = if basins_valid ts start final then Ok (usort start, usort final) else Err ValueError.
+Proof.
+  unfold validate, basins_valid.
+  rewrite !intersect_spec by apply usort_sorted.
+  rewrite disjoint_check, !subset_check.
+  destruct (negb (existsb (fun x => mem_Z x final) start)) eqn:E1;
+  destruct (forallb (fun x => mem_Z x (concat ts)) start) eqn:E2;
+  destruct (forallb (fun x => mem_Z x (concat ts)) final) eqn:E3; reflexivity.
+Qed.
+
+(* ---------------- extensionality in the basin sets ---------------- *)
+Lemma first_in_ext P P' s :
+  (forall x, mem_Z x P = mem_Z x P') -> first_in P s = first_in P' s.
+Proof.
+  intros HP. induction s as [|x rest IH]; simpl; [reflexivity|].
+  rewrite HP, IH. reflexivity.
+Qed.
+
+Lemma events_ref_ext fuel off s S S' F F' :
+  (forall x, mem_Z x S = mem_Z x S') -> (forall x, mem_Z x F = mem_Z x F') ->
+  events_ref fuel off s S F = events_ref fuel off s S' F'.
+Proof.
+  intros HS HF. revert off s. induction fuel as [|f IH]; intros off s; simpl; [reflexivity|].
+  rewrite (first_in_ext S S' s HS).
+  destruct (first_in S' s) as [a|]; [|reflexivity].
+  rewrite (first_in_ext F F' _ HF).
+  destruct (first_in F' (skipn (a + 1) s)) as [b|]; [|reflexivity].
+  rewrite IH. reflexivity.
+Qed.
+
+Lemma erase_step_ext S S' path x :
+  (forall x, mem_Z x S = mem_Z x S') -> erase_step S path x = erase_step S' path x.
+Proof. intros HS. unfold erase_step. rewrite HS. reflexivity. Qed.
+
+Lemma loop_erase_ext S S' slice :
+  (forall x, mem_Z x S = mem_Z x S') -> loop_erase S slice = loop_erase S' slice.
+Proof.
+  intros HS. unfold loop_erase. generalize (@nil Z) as acc.
+  induction slice as [|x rest IH]; intros acc; simpl; [reflexivity|].
+  rewrite (erase_step_ext S S' acc x HS). apply IH.
+Qed.
+
+Lemma events_usort t start final :
+  events t (usort start) (usort final) = events_ref (length t) 0 t start final.
+Proof.
+  rewrite events_eq_ref. apply events_ref_ext; intros x; apply mem_Z_usort.
+Qed.
+
 (* md.estimate_waiting_times = reference extraction, incl. the rejection of
    overlapping / absent start and final states *)
 Lemma estimate_waiting_times_eq_ref ts start final :
   concat ts <> [] -> (forall v, In v (concat ts) -> small29 v) ->
   estimate_waiting_times ts start final = wt_ref ts start final.
-Proof. TODO. Qed.
+Proof.
+  intros Hne Hsm. unfold estimate_waiting_times, wt_ref.
+  rewrite (mk_spec_correct ts Hne Hsm). cbn [bind].
+  rewrite states_mk_spec, validate_spec.
+  destruct (basins_valid ts start final) eqn:EB; cbn [bind]; [|reflexivity].
+  rewrite (trajs_mk_spec ts Hne Hsm). cbn [bind fst snd].
+  f_equal. f_equal. apply map_ext. intros t. unfold wt_single.
+  rewrite events_usort. reflexivity.
+Qed.
 
 Lemma estimate_paths_eq_ref ts start final :
   concat ts <> [] -> (forall v, In v (concat ts) -> small29 v) ->
   estimate_paths ts start final = paths_ref ts start final.
-Proof. TODO. Qed.
+Proof.
+  intros Hne Hsm. unfold estimate_paths, paths_ref.
+  rewrite (mk_spec_correct ts Hne Hsm). cbn [bind].
+  rewrite states_mk_spec, validate_spec.
+  destruct (basins_valid ts start final) eqn:EB; cbn [bind]; [|reflexivity].
+  rewrite (trajs_mk_spec ts Hne Hsm). cbn [bind fst snd].
+  f_equal. f_equal. f_equal. apply map_ext. intros t. unfold paths_single.
+  rewrite events_usort. apply map_ext. intros p.
+  rewrite (loop_erase_ext (usort start) start) by (intros x; apply mem_Z_usort).
+  reflexivity.
+Qed.
+
+(* ---------------- compare_discretization ---------------- *)
+Lemma flat_idx_mk_spec ts :
+  concat (st_idx (mk_spec ts)) = map (rank (usort (concat ts))) (concat ts).
+Proof.
+  rewrite index_rank. unfold unique. symmetry. apply concat_map.
+Qed.
+
+Lemma rank_map_below l x :
+  In x (map (rank (usort l)) l) -> x < length (usort l).
+Proof.
+  intros Hx. apply in_map_iff in Hx as [v [<- Hv]].
+  apply rank_nth. apply usort_In. exact Hv.
+Qed.
 
 (* md.compare_discretization = contingency formula on the ranks, incl. rejections *)
 Lemma compare_discretization_eq_ref ts1 ts2 method :
   concat ts1 <> [] -> concat ts2 <> [] ->
   (forall v, In v (concat ts1) -> small29 v) -> (forall v, In v (concat ts2) -> small29 v) ->
   compare_discretization ts1 ts2 method = sim_ref ts1 ts2 method.
-Proof. TODO. Qed.
+Proof.
+  intros Hne1 Hne2 Hsm1 Hsm2. unfold compare_discretization, sim_ref.
+  rewrite (mk_spec_correct ts1 Hne1 Hsm1), (mk_spec_correct ts2 Hne2 Hsm2). cbn [bind].
+  destruct (counters_mk_spec ts1) as [_ [Hf1 Hs1]].
+  destruct (counters_mk_spec ts2) as [_ [Hf2 Hs2]].
+  rewrite Hf1, Hf2, Hs1, Hs2.
+  destruct (negb ((method =? 0)%Z || (method =? 1)%Z)) eqn:EM; [reflexivity|].
+  destruct (Nat.eqb (length (concat ts1)) (length (concat ts2))) eqn:EL; cbn [negb]; [|reflexivity].
+  apply Nat.eqb_eq in EL.
+  destruct (Nat.eqb (length (usort (concat ts1))) 1 || Nat.eqb (length (usort (concat ts2))) 1) eqn:E1;
+    [reflexivity|].
+  f_equal. rewrite !flat_idx_mk_spec.
+  apply compare_idx_eq_spec.
+  - rewrite !map_length. exact EL.
+  - intros x Hx. apply rank_map_below. exact Hx.
+  - intros x Hx. apply rank_map_below. exact Hx.
+Qed.
